@@ -51,6 +51,32 @@ def Balanced (g : List Tok) : Prop := nest [] g = some []
 
 instance (g : List Tok) : Decidable (Balanced g) := by unfold Balanced; infer_instance
 
+def Cnt.inc (c : Cnt) : K → Cnt
+  | .brace => { c with brace := c.brace + 1 }
+  | .bracket => { c with bracket := c.bracket + 1 }
+  | .paren => { c with parant := c.parant + 1 }
+
+def Cnt.dec (c : Cnt) : K → Cnt
+  | .brace => { c with brace := c.brace - 1 }
+  | .bracket => { c with bracket := c.bracket - 1 }
+  | .paren => { c with parant := c.parant - 1 }
+
+/-- the counters that correspond to a stack of open brackets, on top of `c₀` -/
+def cntFrom (c₀ : Cnt) : List K → Cnt
+  | [] => c₀
+  | k :: s => (cntFrom c₀ s).inc k
+
+def zeroCnt : Cnt := ⟨0, 0, 0⟩
+
+
+/-- from stack `stk`: well nested, no EOF, and the loop (counters `cntFrom c₀ ·`) never stops inside -/
+def calm (m : Mode) (c₀ : Cnt) : List K → List Tok → Bool
+  | _, [] => true
+  | stk, t :: ts =>
+    match push stk t with
+    | none => false
+    | some s => t.typ != .eof && !(stop m (cntFrom c₀ s) t) && calm m c₀ s ts
+
 /-- from stack `stk`: well nested, no EOF, no end token of mode `m` at nesting depth 0 -/
 def Quiet (m : Mode) : List K → List Tok → Bool
   | _, [] => true
